@@ -20,6 +20,7 @@ import RbV.Thm.GenSrcTransform
 import RbV.Thm.GenSrcPosTypes
 import RbV.Thm.GenSrcSaisBuckets
 import RbV.Thm.GenSrcSaisCalcPos
+import RbV.Thm.GenSrcSaisCalcPosSafe
 import RbV.Thm.GenSrcSaisLms
 /-!
 # C03 — suffix array = sorted permutation of all suffixes; LCP; shortest unique substrings
@@ -767,10 +768,9 @@ example : Gen.SrcSaisBuckets.init_bucket_end [] [] [] = Rs.Res.panic := by decid
 *translated* `init_bucket_start`, `init_bucket_end`, `is_l_pos`, `is_s_pos` in the place of its callees, on a text SA-IS
 accepts with its L/S typing: placement of the LMS positions from the right (`wrapping_sub`), bucket-end reset, L pass with
 the `p == n || p == 0` skip, S pass with only the `p == 0` skip.  `SafeRun` says that every index the three passes of the
-*model* use is in range (the model totalises such accesses, the code panics).  **Partial**: missing is the proof that every
-run on a `Sais.Valid` text with a list of LMS positions is index-safe (true on every case of the correspondence run; the
-invariants of `Lemmas/SaisPlace/LPass/SPass.lean` do not export the bounds). -/
-theorem calc_pos_source_eq_model_partial (castU : Nat → Option Nat) (pos0 lms : List Nat) (bsz : Rs.VecMap)
+*model* use is in range (the model totalises such accesses, the code panics); it holds for every list of the LMS positions
+(`calc_pos_source_eq_model` below), this form is for arbitrary `lms_pos` contents. -/
+theorem calc_pos_source_eq_model_on_safe_runs (castU : Nat → Option Nat) (pos0 lms : List Nat) (bsz : Rs.VecMap)
     (bst0 be0 t : List Nat) (hv : Sais.Valid t) (hc : ∀ c ∈ t, castU c = some c) (hsz : t.length < 2 ^ 64)
     (hsafe : Thm.GenSrcSaisCalcPos.SafeRun t (Sais.tyOf t) lms) :
     ∃ m, Gen.SrcSaisCalcPos.calc_pos castU (Gen.SrcPosTypes.is_l_pos (Sais.tyOf t)) (Gen.SrcPosTypes.is_s_pos (Sais.tyOf t))
@@ -782,6 +782,33 @@ theorem calc_pos_source_eq_model_partial (castU : Nat → Option Nat) (pos0 lms 
   exact ⟨m, Thm.GenSrcSaisCalcPos.calc_pos_eq_model castU _ _ _ _ _ pos0 lms bsz bst0 be0 t (Sais.tyOf t) m hc
     (fun q hq => Thm.GenSrcPosTypes.is_l_pos_eq_model _ q hq) (fun q hq => Thm.GenSrcPosTypes.is_s_pos_eq_model _ q hq)
     h1 (fun be => Thm.GenSrcSaisBuckets.init_bucket_end_valid be t hv) hsafe⟩
+
+/-- **translated `calc_pos` = the mirror model `Sais.calcPosRun`** on every text SA-IS accepts and every arrangement `lms` of
+its LMS positions in `lms_pos` (each exactly once): the translated code never panics — every run is index-safe
+(`Thm.GenSrcSaisCalcPos.safeRun_of_valid`, from the loop invariants of the three passes) — and returns the model's `pos`,
+`bucket_start`, `bucket_end` -/
+theorem calc_pos_source_eq_model (castU : Nat → Option Nat) (pos0 lms : List Nat) (bsz : Rs.VecMap)
+    (bst0 be0 t : List Nat) (hv : Sais.Valid t) (hc : ∀ c ∈ t, castU c = some c) (hsz : t.length < 2 ^ 64)
+    (hl : Sais.LmsList t lms) :
+    ∃ m, Gen.SrcSaisCalcPos.calc_pos castU (Gen.SrcPosTypes.is_l_pos (Sais.tyOf t)) (Gen.SrcPosTypes.is_s_pos (Sais.tyOf t))
+        (Gen.SrcPosTypes.is_lms_pos (Sais.tyOf t)) (Gen.SrcSaisBuckets.init_bucket_start castU)
+        Gen.SrcSaisBuckets.init_bucket_end pos0 lms bsz bst0 be0 t (Sais.tyOf t) =
+      Rs.Res.ok ((Sais.calcPosRun t (Sais.tyOf t) lms).pos, m, (Sais.calcPosRun t (Sais.tyOf t) lms).bStart,
+        (Sais.calcPosRun t (Sais.tyOf t) lms).bEnd) :=
+  calc_pos_source_eq_model_on_safe_runs castU pos0 lms bsz bst0 be0 t hv hc hsz
+    (Thm.GenSrcSaisCalcPos.safeRun_of_valid t hv hsz lms hl)
+
+/-- **the translated `calc_pos` on suffix-sorted LMS positions returns the sorted suffix permutation** (induced sorting,
+`induced_sort_correct`, for the code itself) -/
+theorem calc_pos_source_sorted (castU : Nat → Option Nat) (pos0 lms : List Nat) (bsz : Rs.VecMap)
+    (bst0 be0 t : List Nat) (hv : Sais.Valid t) (hc : ∀ c ∈ t, castU c = some c) (hsz : t.length < 2 ^ 64)
+    (hl : Sais.LmsSorted t lms) :
+    ∃ pos m bs be, Gen.SrcSaisCalcPos.calc_pos castU (Gen.SrcPosTypes.is_l_pos (Sais.tyOf t))
+        (Gen.SrcPosTypes.is_s_pos (Sais.tyOf t)) (Gen.SrcPosTypes.is_lms_pos (Sais.tyOf t))
+        (Gen.SrcSaisBuckets.init_bucket_start castU) Gen.SrcSaisBuckets.init_bucket_end pos0 lms bsz bst0 be0 t (Sais.tyOf t) =
+      Rs.Res.ok (pos, m, bs, be) ∧ SuffixSorted t pos := by
+  obtain ⟨m, h⟩ := calc_pos_source_eq_model castU pos0 lms bsz bst0 be0 t hv hc hsz hl.1
+  exact ⟨_, m, _, _, h, Sais.induced_sort_suffix t hv lms hl⟩
 
 -- the run on the doc-test text of `suffix_array_int` with its sorted LMS positions is index-safe, and the translated code
 -- evaluated on it returns the suffix array
@@ -840,5 +867,44 @@ example : (do let ty ← Gen.SrcPosTypes.new [2, 1, 3, 1, 3, 1, 3, 0]
 example : (do let ty ← Gen.SrcPosTypes.new [1, 0]
               Gen.SrcSaisLms.lms_substring_eq (Gen.SrcPosTypes.is_l_pos ty) (Gen.SrcPosTypes.is_s_pos ty)
                 (Gen.SrcPosTypes.is_lms_pos ty) [1, 0] ty 1 1) = Rs.Res.panic := by decide
+
+/-- **translated `sort_lms_suffixes` (with the translated `is_lms_pos`, `lms_substring_eq`) = the mirror model
+`Sais.sortLmsSuffixes`** on a text SA-IS accepts, for every `construct` of the next recursion level that returns what the
+model's `rec` returns: the naming loop is `Sais.naming` (`reduced_text[reduced_text_pos[p]] = label`, `lms_substring_eq(prev, p)`
+on two different positions, `cast(label)` with `label < count`), then `label + 1 < count` decides between the recursion with the
+`lms_pos` backup and the filter of `pos`.  Hypotheses = what the model-level proof establishes before the call (`pos` a
+duplicate-free list of positions — a permutation after `calc_pos` —, `reduced_text_pos` maps the LMS positions below `count`,
+`count` = number of LMS positions) and what keeps the casts from panicking -/
+theorem sort_lms_suffixes_source_eq_model (castS : Nat → Option Nat)
+    (constructF : List Nat → List Nat → List Nat → Rs.VecMap → List Nat → List Nat → List Nat →
+      Rs.Res (List Nat × List Nat × List Nat × Rs.VecMap × List Nat × List Nat))
+    (t : List Nat) (hv : Sais.Valid t) (cnt : Nat) (rec : List Nat → Sais.St → Sais.St) (s : Sais.St) (bsz : Rs.VecMap)
+    (hsz : t.length + t.length < 2 ^ 64) (hcast : ∀ x, x < cnt → castS x = some x) (hc63 : cnt < 2 ^ 63)
+    (hnd : s.pos.Nodup) (hlt : ∀ p ∈ s.pos, p < t.length) (hne : 0 < s.pos.length)
+    (h0 : s.pos.getD 0 0 < s.redPos.length ∧ s.redPos.getD (s.pos.getD 0 0) 0 < cnt)
+    (hrp : ∀ p ∈ s.pos, Sais.isLms (Sais.tyOf t) p = true → p < s.redPos.length ∧ s.redPos.getD p 0 < cnt)
+    (hcount : (s.pos.filter (Sais.isLms (Sais.tyOf t))).length ≤ cnt)
+    (hrec : ∀ red, ∃ bsz', constructF s.pos s.lmsPos s.redPos bsz s.bStart s.bEnd red =
+      Rs.Res.ok ((rec red s).pos, (rec red s).lmsPos, (rec red s).redPos, bsz', (rec red s).bStart, (rec red s).bEnd))
+    (hback : ∀ red, ∀ p ∈ (rec red s).pos, p < s.lmsPos.length) :
+    ∃ bsz', Gen.SrcSaisLms.sort_lms_suffixes (Gen.SrcPosTypes.is_l_pos (Sais.tyOf t)) (Gen.SrcPosTypes.is_s_pos (Sais.tyOf t))
+        (Gen.SrcPosTypes.is_lms_pos (Sais.tyOf t)) castS constructF s.pos s.lmsPos s.redPos bsz s.bStart s.bEnd t
+        (Sais.tyOf t) cnt =
+      Rs.Res.ok ((Sais.sortLmsSuffixes rec t (Sais.tyOf t) cnt s).pos, (Sais.sortLmsSuffixes rec t (Sais.tyOf t) cnt s).lmsPos,
+        (Sais.sortLmsSuffixes rec t (Sais.tyOf t) cnt s).redPos, bsz', (Sais.sortLmsSuffixes rec t (Sais.tyOf t) cnt s).bStart,
+        (Sais.sortLmsSuffixes rec t (Sais.tyOf t) cnt s).bEnd) :=
+  Thm.GenSrcSaisLms.sort_lms_suffixes_eq_model _ _ _ castS constructF t (Sais.tyOf t) cnt rec s bsz (Sais.length_tyOf t) hsz
+    (fun p hp => Sais.sym_ne_last hv p hp)
+    (fun q hq => Thm.GenSrcPosTypes.is_lms_pos_eq_model _ q (by rw [Sais.length_tyOf]; exact hq))
+    hcast hc63 hnd hlt hne h0 hrp hcount hrec hback
+
+-- the naming of `2 1 3 1 3 1 3 0` through the translated code (sorted `pos`, LMS positions 1, 3, 5, 7 ↦ indices 0..3): the
+-- equal LMS substrings at 3 and 1 get one label (reduced text `2 2 1 0`), `label + 1 = 3 < 4`: the recursion is entered (a stub)
+example : (do
+    let ty ← Gen.SrcPosTypes.new [2, 1, 3, 1, 3, 1, 3, 0]
+    let r ← Gen.SrcSaisLms.sort_lms_suffixes (Gen.SrcPosTypes.is_l_pos ty) (Gen.SrcPosTypes.is_s_pos ty)
+      (Gen.SrcPosTypes.is_lms_pos ty) some (fun _ _ _ _ _ _ red => Rs.Res.ok (red, [], [], [], [], []))
+      [7, 5, 3, 1, 0, 6, 4, 2] [1, 3, 5, 7] [0, 0, 0, 1, 0, 2, 0, 3] [] [] [] [2, 1, 3, 1, 3, 1, 3, 0] ty 4
+    pure r.1) = Rs.Res.ok [2, 2, 1, 0] := by decide
 
 end RbV.Thm.C03
